@@ -292,8 +292,8 @@ void EntityManager::applyCommandPack(TemporalStorage& storage, size_t begin, siz
         if (!entities_.has(entity.id())) {
             entities_.resize(entity.id().next().toInt());
             locations_.resize(entity.id().next().toInt());
-            entities_[entity.id()] = entity;
         }
+        entities_[entity.id()] = entity;
     }
     else {
         auto archetype = getArchetypeOf(entity);
